@@ -4,7 +4,7 @@
    earlier history.  The samplers of /repo are tied to this generic machine by the correspondence harness
    (bit-for-bit differential runs + the trace instance) and by the footprint facts regenerated from the
    source on every run (coq/gen/Gen_C14.v), which instantiate C14_resume_footprint / C14_reinitialize. *)
-From CV Require Import Base.Tac Base.Cmp Model.C19_Stats Model.C14_Chain Model.C14_Burn Model.C14_Out Model.C14_Warm Proofs.C14_Chain Proofs.C14_Burn Proofs.C14_Out Proofs.C14_Warm.
+From CV Require Import Base.Tac Base.Cmp Model.C14_Chain Model.C14_Burn Model.C14_Out Model.C14_Warm Proofs.C14_Chain Proofs.C14_Burn Proofs.C14_Out Proofs.C14_Warm.
 From Coq Require String.
 Import String.StringSyntax.
 
@@ -69,7 +69,7 @@ Proof.
 Qed.
 
 (* the stateful interface records the warm-up too and discards it afterwards: warmup(Nb), sample(N) on a sampler with
-   empty history, then get_samples().burnthin(Nb) (Samples.burnthin, the model of property C19) returns exactly the N
+   empty history, then get_samples().burnthin(Nb) (Samples.burnthin, same definition as in the model of property C19) returns exactly the N
    states produced by the sampling call, in order -- the last N states of the chain *)
 Theorem C14_exp_burnin : forall (c : Cfg) (ti : nat) (s : sampler) (rsw rs : list Rnd),
   smp s = [] -> rs <> [] ->
